@@ -601,6 +601,16 @@ def gen_named(rng, case, params, kind):
         return names
     if k == "nomatch":
         return rng.sample(params, rng.randint(0, min(2, len(params)))) + [rng.choice(ODD)]
+    if k == "tie":
+        # two equally specific names addressing one parameter ("TtoII_spread" and "ipsi_spread" for ipsi_TtoII_spread)
+        three = [p for p in params if len(p.split("_")) == 3]
+        if three:
+            sd, o, kind_ = rng.choice(three).split("_")
+            pair = [f"{o}_{kind_}", f"{sd}_{kind_}"]
+            rng.shuffle(pair)
+            return pair + rng.sample([p for p in params if p not in pair], rng.randint(0, 1))
+        k = "literal"
+        return rng.sample(params, rng.randint(1, len(params)))
     if k == "reversed":
         src = rng.choice(params + P + S) if (P + S) else rng.choice(params)
         parts = src.split("_")
@@ -618,7 +628,7 @@ def gen_named(rng, case, params, kind):
 
 
 NAMED_KINDS = ["literal", "literal", "literal", "all", "global", "global", "partial", "side", "specific-global",
-               "specific-global", "global-specific", "global-specific", "shadowed", "nomatch", "odd", "dup", "reversed"]
+               "specific-global", "global-specific", "global-specific", "shadowed", "nomatch", "odd", "dup", "reversed", "tie"]
 BAD_VALUES = [float("nan"), float("inf"), -0.25, 1.5]
 
 
@@ -884,7 +894,7 @@ def run(ctx: Ctx, a_ok: bool):
                 "Params.set_params with keywords only (u_/b_/m_/h_set_params)", "Params.get_params (names and order)"]
     ctx.rule = ("model class x configuration (as C10) x random graph (1-3 LNLs, binary/trinary) x frozen/parametric "
                 "distributions x declared names (literal subsets in random order, all names, global, partially global, "
-                "side-global, specific-before-global, global-before-specific, completely shadowed, unmatched, reversed, edge-only, "
+                "side-global, specific-before-global, global-before-specific, completely shadowed, equally specific pairs, unmatched, reversed, edge-only, "
                 "duplicated) given at construction or through the setter x calls (positional, keyword, mixed, too few, too "
                 "many, extra keyword, invalid value, likelihood with list/dict/extra/invalid, delete, delete twice, "
                 "positional after delete); non-trivial iff the graph has >= 2 arcs, names are declared and a "
